@@ -64,6 +64,22 @@ class S(M):
     def __new__(cls, *args, **kwargs):
         return super().__new__(cls)
 ''',
+    "no_init": '''
+from typing import List
+from spec_classes import spec_class, Attr
+
+@spec_class(init=False, bootstrap=BOOT)
+class M:            # no constructor is generated: the class takes no arguments
+    x: int = 1
+    ys: List[int] = Attr(default_factory=lambda: [1])
+
+class P(M):
+    x = 5
+
+@spec_class(bootstrap=BOOT)
+class S(M):         # ... its subclass has one again
+    z: int = 2
+''',
     "plain_lazy_chain": '''
 from spec_classes import spec_class, Attr
 
@@ -244,6 +260,16 @@ def _describe_class(cls):
             meths[n] = "<no signature>"
     d["methods"] = meths
     d["class_defaults"] = {n: safe_repr(cls.__dict__[n], 60) for n in md.attrs if n in cls.__dict__}
+    # how the class itself is called: its introspectable signature, and what becomes of arguments it does not take
+    try:
+        d["call_signature"] = str(inspect.signature(cls))
+    except (TypeError, ValueError):
+        d["call_signature"] = "<no signature>"
+    try:
+        cls(*(("K",) if md.key else ()), 1, 2, 3)
+        d["excess_positional"] = "accepted"
+    except Exception as e:
+        d["excess_positional"] = type(e).__name__
     try:
         inst = cls(**required_kwargs(cls))
         d["fresh_repr"] = repr(inst)
@@ -412,14 +438,20 @@ def run(ctx, params):
                     ctx.violation("thread_outcome_equals_eager", f"[{shape}] thread {i} ({plan[i][0]} {plan[i][1]}) under schedule {details['schedule']}: observed {safe_repr(diff, 260)} (lazy, eager)",
                                   features=dict(feats, failing_trigger=trig_label(plan[i], names)), case=case, **details)
                     return r
+            call_sig_diffs = []
             for n in names:
                 ctx.count("class_descriptions_compared")
                 try:
-                    got = describe_class(ns[n])
+                    got = dict(describe_class(ns[n]))
                 except Exception as e:
                     ctx.violation("class_equals_eager", f"[{shape}] class {n} cannot be described after schedule {details['schedule']}: {type(e).__name__}: {e}", features=feats, case=case, **details)
                     return r
-                if got != ref_desc[n]:
+                # how the class object itself is called is judged on its own (after everything else, and without ending
+                # the comparison): see the open finding `lazy-standin-new-call-signature`
+                got_sig, ref_sig = got.pop("call_signature", None), ref_desc[n].get("call_signature")
+                if got_sig != ref_sig:
+                    call_sig_diffs.append((n, got_sig, ref_sig, type(ns[n].__dict__.get("__new__")).__name__ if "__new__" in ns[n].__dict__ else None))
+                if got != {k: v for k, v in ref_desc[n].items() if k != "call_signature"}:
                     keys = [k for k in got if got[k] != ref_desc[n].get(k)]
                     sub = {}
                     for k in keys[:2]:
@@ -430,6 +462,10 @@ def run(ctx, params):
                     ctx.violation("class_equals_eager", f"[{shape}] class {n} after schedule {details['schedule']} differs from the eager class in {keys}: {safe_repr(sub, 300)} (lazy, eager)",
                                   features=dict(feats, differing=keys[:3]), case=case, **details)
                     return r
+            for n, got_sig, ref_sig, own_new in call_sig_diffs[:1]:
+                ctx.count("call_signature_differences")
+                ctx.violation("class_call_signature_equals_eager", f"[{shape}] inspect.signature({n}) is {got_sig} on the lazily bootstrapped class and {ref_sig} on the eager one (own __new__ left on the lazy class: {own_new})",
+                              features=dict(feats, lazy_call_signature=got_sig, own_new_kind=own_new, eager_has_own_new="__new__" in ens[n].__dict__), case=case, **details)
             return r
 
         base = None
@@ -495,7 +531,7 @@ def run(ctx, params):
 
 
 def plan(tier, seed):
-    kinds = ["gen", "new_defined", "plain_lazy_chain", "nested_type", "gen", "lazy_parent", "sub_defines_new", "diamond_new", "diamond_post_init"]
+    kinds = ["gen", "new_defined", "plain_lazy_chain", "nested_type", "gen", "lazy_parent", "sub_defines_new", "diamond_new", "diamond_post_init", "no_init"]
     if tier == "quick":
-        return [{"shard": i, "sources": 2, "kinds": kinds[i % 9 :] + kinds[: i % 9], "single": 40, "double": 30, "priority_double": 160, "pct": 10, "threads": 3 if i % 4 == 3 else 2} for i in range(16)]
-    return [{"shard": i, "sources": 6, "kinds": kinds[i % 9 :] + kinds[: i % 9], "single": "all", "double": 400, "pct": 100, "threads": 3 if i % 4 == 3 else 2} for i in range(32)]
+        return [{"shard": i, "sources": 2, "kinds": kinds[i % 10 :] + kinds[: i % 10], "single": 40, "double": 30, "priority_double": 160, "pct": 10, "threads": 3 if i % 4 == 3 else 2} for i in range(16)]
+    return [{"shard": i, "sources": 3, "kinds": kinds[i % 10 :] + kinds[: i % 10], "single": "all", "double": 200, "pct": 60, "threads": 3 if i % 4 == 3 else 2} for i in range(32)]
